@@ -34,7 +34,7 @@ theorem monad_bind_eq {α β} (x : Outcome α) (f : α → Outcome β) : (x >>= 
 
 /-- A pool that never panics (unfolded form of `C10.PoolNoPanic`). -/
 def PoolOK (p : Pool) : Prop :=
-  (∀ f off len s, p.read f off len ≠ .panic s) ∧ (∀ f s, p.flen f ≠ .panic s)
+  (∀ f off len s, p.read f off len ≠ .panic s) ∧ (∀ f s, p.flen f ≠ .panic s) ∧ (∀ f s, p.readAll f ≠ .panic s)
 
 theorem idx_ne_panic (n : Nat) (i : Int) (site s : String) : idx n i site ≠ .panic s := by
   unfold idx; split <;> (intro h; cases h)
@@ -158,17 +158,13 @@ def skipOf (E : Env) (i : Nat) : Bool :=
 
 /-- whole-file copy of old file `t`. -/
 def procFull (E : Env) (i t : Nat) (rest1 : List WMsg) (r : Res) : Outcome (List WMsg × Res) :=
-  match E.pool.flen t with
+  match E.pool.readAll t with
   | .err e => .err e
   | .panic p => .panic p
-  | .ok n =>
-    match E.pool.read t 0 n with
-    | .err e => .err e
-    | .panic p => .panic p
-    | .ok bytes =>
-      (skipOps rest1).bind fun rest' =>
-        .ok (rest', { out := r.out ++ [(i, bytes)], touched := r.touched + 1,
-                      calls := r.calls ++ [BowlCall.transpose i t], reads := r.reads ++ [t] })
+  | .ok bytes =>
+    (skipOps rest1).bind fun rest' =>
+      .ok (rest', { out := r.out ++ [(i, bytes)], touched := r.touched + 1,
+                    calls := r.calls ++ [BowlCall.transpose i t], reads := r.reads ++ [t] })
 
 /-- relay of the first op and of the following ones. -/
 def procRelay (E : Env) (i : Nat) (op : SyncOp) (rest1 : List WMsg) (r : Res) : Outcome (List WMsg × Res) :=
@@ -226,13 +222,9 @@ theorem procFull_ne_panic (E : Env) (hp : PoolOK E.pool) (i t : Nat) (rest1 : Li
   split
   · intro h; cases h
   · rename_i p hpp
-    exact absurd hpp (hp.2 _ _)
-  · split
-    · intro h; cases h
-    · rename_i p hpp
-      exact absurd hpp (hp.1 _ _ _ _)
-    · apply bind_ne_panic (skipOps_ne_panic _ _)
-      intro a h; cases h
+    exact absurd hpp (hp.2.2 _ _)
+  · apply bind_ne_panic (skipOps_ne_panic _ _)
+    intro a h; cases h
 
 theorem procRelay_ne_panic (E : Env) (hp : PoolOK E.pool) (i : Nat) (op : SyncOp) (rest1 : List WMsg) (r : Res)
     (s : String) : procRelay E i op rest1 r ≠ .panic s := by
@@ -267,7 +259,7 @@ theorem procBsdiff_ne_panic (E : Env) (hp : PoolOK E.pool) (i : Nat) (rest : Lis
     split
     · intro h; cases h
     · rename_i p hpp
-      exact absurd hpp (hp.2 _ _)
+      exact absurd hpp (hp.2.1 _ _)
     · apply bind_ne_panic (bsdiffLoop_ne_panic E hp _ _ _ _ _ _)
       intro a
       split
@@ -618,26 +610,20 @@ theorem procFull_spec (E : Env) (i t : Nat) (rest1 rest' : List WMsg) (r r1 : Re
   split at h
   · cases h
   · cases h
-  · rename_i n hfl
-    split at h
-    · cases h
-    · cases h
-    · rename_i bytes hrd
-      obtain ⟨rest'', hsk, h⟩ := bind_eq_ok h
-      cases h
-      refine ⟨hsk, ⟨{ out := [(i, bytes)], touched := 1, calls := [BowlCall.transpose i t], reads := [t] }, ?_, rfl, ?_⟩⟩
-      · refine ⟨⟨bytes, rfl⟩, rfl, ?_⟩
-        intro c hc
-        simp only [List.mem_singleton] at hc
-        exact Or.inr ⟨t, hc⟩
-      · intro r'
-        unfold procFull
-        rw [hfl]
-        dsimp only
-        rw [hrd]
-        dsimp only
-        rw [hsk]
-        rfl
+  · rename_i bytes hrd
+    obtain ⟨rest'', hsk, h⟩ := bind_eq_ok h
+    cases h
+    refine ⟨hsk, ⟨{ out := [(i, bytes)], touched := 1, calls := [BowlCall.transpose i t], reads := [t] }, ?_, rfl, ?_⟩⟩
+    · refine ⟨⟨bytes, rfl⟩, rfl, ?_⟩
+      intro c hc
+      simp only [List.mem_singleton] at hc
+      exact Or.inr ⟨t, hc⟩
+    · intro r'
+      unfold procFull
+      rw [hrd]
+      dsimp only
+      rw [hsk]
+      rfl
 
 theorem procRelay_spec (E : Env) (i : Nat) (op : SyncOp) (rest1 rest' : List WMsg) (r r1 : Res)
     (h : procRelay E i op rest1 r = .ok (rest', r1)) :
